@@ -5,6 +5,7 @@ import (
 	"go/ast"
 	"go/token"
 	"go/types"
+	"regexp"
 	"sort"
 	"strings"
 
@@ -120,6 +121,8 @@ func RuleH1(c *Ctx) {
 		}
 		if cf.MustAt(cs.Call, gen, nil, nil) {
 			sc.Holds(key, c.P.Pos(cs.Call.Pos()), "preceded by Has/Get(not found) on the same key")
+		} else if why, ok := c.h1SetCallersLookedUp(cs, fld, c.canonKey(cs.Pk, cf, k)); ok {
+			sc.Holds(key, c.P.Pos(cs.Call.Pos()), why)
 		} else {
 			sc.Violation(key, c.P.Pos(cs.Call.Pos()), fmt.Sprintf("%s.Set(%s, …) is reachable without a membership test on the same key: a second declaration with the same name silently replaces the first instead of being rejected", fld.Name(), types.ExprString(k)))
 		}
@@ -151,7 +154,7 @@ func RuleH1(c *Ctx) {
 			name := ""
 			if sel, ok := ast.Unparen(ix.X).(*ast.SelectorExpr); ok {
 				if fld, ok := info.ObjectOf(sel.Sel).(*types.Var); ok && fld.IsField() && coreT != nil {
-					if fieldOwner(coreT, fld) && !isOptionCtor(info, fd) && !strings.HasPrefix(fd.Name.Name, "New") {
+					if fieldOwner(coreT, fld) && !c.isOptionSetup(pk, fd) && !strings.HasPrefix(fd.Name.Name, "New") {
 						kind, name = h1MapKind(fld), fld.Name()
 					}
 				}
@@ -875,11 +878,28 @@ func RuleH3(c *Ctx) {
 const h3SilentWhy = "the Request record is created on first use: the Request directive and its Body child both call the same setter; Request itself is not in the property's list of singletons"
 
 func callReceivingLit(fd *ast.FuncDecl, lit *ast.FuncLit) *ast.CallExpr {
+	// the literal itself, or the local it was bound to (`set := func(...) {...}; X.Update(k, set)`)
+	holder := ""
+	ast.Inspect(fd.Body, func(n ast.Node) bool {
+		if as, ok := n.(*ast.AssignStmt); ok && len(as.Lhs) == len(as.Rhs) {
+			for i, r := range as.Rhs {
+				if r == ast.Expr(lit) {
+					if id, ok := as.Lhs[i].(*ast.Ident); ok {
+						holder = id.Name
+					}
+				}
+			}
+		}
+		return true
+	})
 	var res *ast.CallExpr
 	ast.Inspect(fd.Body, func(n ast.Node) bool {
 		if call, ok := n.(*ast.CallExpr); ok {
 			for _, a := range call.Args {
-				if a == lit {
+				if a == ast.Expr(lit) {
+					res = call
+				}
+				if id, ok := a.(*ast.Ident); ok && holder != "" && id.Name == holder && id.Pos() > lit.End() {
 					res = call
 				}
 			}
@@ -969,8 +989,10 @@ func (c *Ctx) slotOf(pk *pkgT, fd *ast.FuncDecl, bi bodyInfo, e ast.Expr) string
 					continue
 				}
 				if call := tupleDefCall(cf, info, x, 0); call != nil {
-					cur = call
-					continue
+					if f := Callee(info, call); f != nil && (f.Name() == "GetValue" || f.Name() == "Get") {
+						cur = call
+						continue
+					}
 				}
 				// result i of a lookup helper:  id, v, err := c.findInteraction(d)  where the
 				// helper returns  id, COLL.GetValue(id).(*T), nil
@@ -1654,6 +1676,69 @@ func (c *Ctx) h1CallersLookedUp(pk *pkgT, fd *ast.FuncDecl, ix *ast.IndexExpr) (
 	return fmt.Sprintf("the key is a parameter and all %d callers reach the call only after a lookup (not found) of it", len(sites)), true
 }
 
+// h1SetCallersLookedUp: the insert sits in a helper whose key is built from its parameters
+// only; every static caller reaches the call after Has/Get (not found) on the same
+// collection with the key the helper will build from that caller's arguments.
+func (c *Ctx) h1SetCallersLookedUp(cs callSite, fld *types.Var, canon string) (string, bool) {
+	if cs.Lit != nil {
+		return "", false
+	}
+	self := declObj(cs)
+	if self == nil || c.usedAsValue(self) {
+		return "", false
+	}
+	sites := c.callSitesOf(self)
+	if len(sites) == 0 {
+		return "", false
+	}
+	var params []string
+	for _, fl := range cs.Decl.Type.Params.List {
+		for _, nm := range fl.Names {
+			params = append(params, nm.Name)
+		}
+	}
+	for _, up := range sites {
+		uinfo := up.Pk.TypesInfo
+		ucf := c.CFG(up.Pk, up.Body)
+		want := canon
+		for i, p := range params {
+			if i < len(up.Call.Args) {
+				want = regexp.MustCompile(`\b`+regexp.QuoteMeta(p)+`\b`).ReplaceAllString(want, types.ExprString(ucf.Resolve(up.Call.Args[i])))
+			}
+		}
+		gen := func(fa cfgx.Fact) bool {
+			if fa.Truth {
+				return false
+			}
+			var look *ast.CallExpr
+			if call, ok := ast.Unparen(fa.Expr).(*ast.CallExpr); ok {
+				if g := Callee(uinfo, call); g != nil && g.Name() == "Has" && len(call.Args) == 1 {
+					look = call
+				}
+			}
+			if id, ok := ast.Unparen(fa.Expr).(*ast.Ident); ok {
+				if call := tupleDefCall(ucf, uinfo, id, 1); call != nil {
+					if g := Callee(uinfo, call); g != nil && g.Name() == "Get" && len(call.Args) == 1 {
+						look = call
+					}
+				}
+			}
+			if look == nil {
+				return false
+			}
+			rs, ok := ast.Unparen(Recv(look)).(*ast.SelectorExpr)
+			if !ok || uinfo.ObjectOf(rs.Sel) != types.Object(fld) {
+				return false
+			}
+			return c.canonKey(up.Pk, ucf, look.Args[0]) == want || types.ExprString(ucf.Resolve(look.Args[0])) == want
+		}
+		if !ucf.MustAt(up.Call, gen, nil, nil) {
+			return "", false
+		}
+	}
+	return fmt.Sprintf("the key is built from the helper's parameters and all %d callers reach the call only after Has/Get (not found) on that key", len(sites)), true
+}
+
 // slotThroughHelper: obj is result i of a helper call `a, obj, err := h(...)`; the helper's
 // success returns hand out, at position i, a local defined as COLL.GetValue(k) / COLL.Get(k)
 // with k the local handed out at position j: the slot is COLL[<caller's j-th variable>].
@@ -1674,6 +1759,12 @@ func (c *Ctx) slotThroughHelper(pk *pkgT, cf *cfgx.Func, obj types.Object, path 
 	}
 	hpk := c.P.PkgOfDecl(hd)
 	ros := c.resultObjs(hpk, hd, retSuccess)
+	if s := c.slotOfHelperResult(pk, cf, obj, call, hpk, hd, idx, ros); s != "" {
+		if len(path) == 0 {
+			return s
+		}
+		return strings.TrimSuffix(s, ".") + "." + strings.Join(path, ".")
+	}
 	if idx >= len(ros) || ros[idx] == nil {
 		return ""
 	}
@@ -1708,6 +1799,68 @@ func (c *Ctx) slotThroughHelper(pk *pkgT, cf *cfgx.Func, obj types.Object, path 
 		}
 	}
 	return ""
+}
+
+// slotOfHelperResult: the i-th result of a lookup helper on its success returns is an access
+// path of the catalog model (`return id, v.Request, nil` with v := COLL.GetValue(id).(*T)); it
+// is normalised in the helper and re-expressed in the caller's names (the key the helper
+// returns as result j is the caller's j-th left-hand side, a key parameter is the argument,
+// the receiver is the caller's receiver expression).
+func (c *Ctx) slotOfHelperResult(pk *pkgT, cf *cfgx.Func, obj types.Object, call *ast.CallExpr, hpk *pkgT, hd *ast.FuncDecl, idx int, ros []types.Object) string {
+	hinfo := hpk.TypesInfo
+	var res ast.Expr
+	agree := true
+	inspectNoLit(hd.Body, func(n ast.Node) bool {
+		ret, ok := n.(*ast.ReturnStmt)
+		if !ok || idx >= len(ret.Results) {
+			return true
+		}
+		last := ret.Results[len(ret.Results)-1]
+		if tv, has := hinfo.Types[last]; !has || !(tv.IsNil() || (tv.Value != nil && tv.Value.String() == "true")) {
+			return true
+		}
+		if res != nil && !cfgx.SameExpr(hinfo, res, ret.Results[idx]) {
+			agree = false
+		}
+		res = ret.Results[idx]
+		return true
+	})
+	if res == nil || !agree {
+		return ""
+	}
+	s := c.slotOf(hpk, hd, bodyInfo{body: hd.Body}, res)
+	if s == "" {
+		return ""
+	}
+	lhs := cf.AssignOf(obj)
+	if lhs == nil {
+		return ""
+	}
+	// keys
+	for j, ro := range ros {
+		if ro != nil && j < len(lhs.Lhs) {
+			s = strings.ReplaceAll(s, "["+ro.Name()+"]", "["+types.ExprString(lhs.Lhs[j])+"]")
+		}
+	}
+	i := 0
+	for _, fl := range hd.Type.Params.List {
+		for _, nm := range fl.Names {
+			if i < len(call.Args) {
+				s = strings.ReplaceAll(s, "["+nm.Name+"]", "["+types.ExprString(call.Args[i])+"]")
+			}
+			i++
+		}
+	}
+	// receiver
+	if hd.Recv != nil && len(hd.Recv.List) == 1 && len(hd.Recv.List[0].Names) == 1 {
+		if r := Recv(call); r != nil {
+			rn := hd.Recv.List[0].Names[0].Name
+			if strings.HasPrefix(s, rn+".") {
+				s = types.ExprString(r) + s[len(rn):]
+			}
+		}
+	}
+	return s
 }
 
 // handsOnVerdict: `return f(...)` where f is not an error constructor - the function
@@ -1774,18 +1927,35 @@ func RulePU1(c *Ctx) {
 			return
 		}
 		hit := false
+		isPath := func(e ast.Expr) bool {
+			sel, ok := ast.Unparen(e).(*ast.SelectorExpr)
+			return ok && info.ObjectOf(sel.Sel) == types.Object(pathConst)
+		}
 		ast.Inspect(fd.Body, func(n ast.Node) bool {
-			cc, ok := n.(*ast.CaseClause)
-			if !ok {
-				return true
-			}
-			for _, e := range cc.List {
-				if sel, ok := ast.Unparen(e).(*ast.SelectorExpr); ok && info.ObjectOf(sel.Sel) == types.Object(pathConst) && len(cc.List) == 1 {
+			switch x := n.(type) {
+			case *ast.CaseClause:
+				if len(x.List) == 1 && isPath(x.List[0]) {
+					hit = true
+				}
+			case *ast.BinaryExpr:
+				// the if-chain form: d.Type() == directive.Path
+				if x.Op == token.EQL && (isPath(x.X) || isPath(x.Y)) {
 					hit = true
 				}
 			}
 			return true
 		})
+		// the walk recurses into the children
+		if hit {
+			self, _ := info.Defs[fd.Name].(*types.Func)
+			rec := false
+			for _, g := range staticCallees(c.P, info, fd.Body) {
+				if g == self {
+					rec = true
+				}
+			}
+			hit = rec
+		}
 		// only the walk that hands the Path on to a collecting function, not the handler table
 		if hit && strings.Contains(strings.ToLower(fd.Name.Name), "path") {
 			collectors = append(collectors, fd)
